@@ -31,7 +31,7 @@ fn spec(prop: &'static str, ops: u64, mon: u32, max_len: usize) -> Spec {
 pub fn plan_for(prop: &str, tier: Tier) -> Option<PropPlan> {
     let q = tier == Tier::Quick;
     let l = if q { 4 } else { 6 };
-    let (hc, ho) = if q { (1000u32, 60usize) } else { (8000u32, 120usize) };
+    let (hc, ho) = if q { (1000u32, 60usize) } else { (20000u32, 120usize) };
     match prop {
         "C01" => Some(PropPlan {
             rule: "case = (backend flavour, len, spare capacity class, one push/insert/pop/remove/swap_remove/clear/get/iter instance with index 0..=len+1, value source, sink, erased/typed path) enumerated exhaustively, plus proptest histories over three vectors; non-trivial = the operation changes the sequence, uses a boundary or out-of-range index, or moves a value between vectors; distinct = distinct (configuration, pick sequence)",
